@@ -43,11 +43,21 @@ func c09OneLine(s string, max int) string {
 	return s
 }
 
-// the interesting line of a dying Go process
+// the interesting line of a dying Go process, and the first casbin frames below it
 func c09FatalLine(out string) string {
-	for _, l := range strings.Split(out, "\n") {
+	lines := strings.Split(out, "\n")
+	for i, l := range lines {
 		if strings.HasPrefix(l, "fatal error:") || strings.HasPrefix(l, "panic:") || strings.HasPrefix(l, "WARNING: DATA RACE") {
-			return strings.TrimSpace(l)
+			r := strings.TrimSpace(l)
+			n := 0
+			for _, m := range lines[i+1:] {
+				m = strings.TrimSpace(m)
+				if strings.HasPrefix(m, "github.com/casbin/casbin/v2") && n < 2 {
+					r += " in " + m
+					n++
+				}
+			}
+			return c09OneLine(r, 400)
 		}
 	}
 	return c09OneLine(out, 200)
@@ -59,13 +69,57 @@ func c09RunChild(c *Ctx, phase string, limit time.Duration, what string) {
 	if err != nil {
 		panic(err)
 	}
+	c09RunChildExe(c, exe, phase, phase, true, limit, what)
+}
+
+// c09RaceBinary builds this harness (shared files + c09*.go, as ./check does) with the race
+// detector.  The default toolchain has no race runtime; go1.26.8 has one.  "" when that
+// toolchain is not installed or the build fails (recorded as a note: the plain phases still run).
+func c09RaceBinary(c *Ctx, dir string) string {
+	gobin, err := exec.LookPath("go1.26.8")
+	if err != nil {
+		c.Notes = append(c.Notes, "race-detector phases skipped: no go1.26.8 toolchain on PATH")
+		return ""
+	}
+	src := filepath.Join("/verif", "harness")
+	ents, err := os.ReadDir(src)
+	if err != nil {
+		c.Notes = append(c.Notes, "race-detector phases skipped: "+err.Error())
+		return ""
+	}
+	var files []string
+	for _, e := range ents {
+		n := e.Name()
+		if !strings.HasSuffix(n, ".go") || strings.HasSuffix(n, "_test.go") {
+			continue
+		}
+		isProp := len(n) > 3 && n[0] == 'c' && n[1] >= '0' && n[1] <= '9' && n[2] >= '0' && n[2] <= '9'
+		if !isProp || strings.HasPrefix(n, "c09") {
+			files = append(files, n)
+		}
+	}
+	out := filepath.Join(dir, "harness-c09-race")
+	cmd := exec.Command(gobin, append([]string{"build", "-race", "-o", out}, files...)...)
+	cmd.Dir = src
+	cmd.Env = append(os.Environ(), "GOFLAGS=-mod=mod", "GOPROXY=off", "GOSUMDB=off", "GOTOOLCHAIN=local")
+	t0 := time.Now()
+	b, err := cmd.CombinedOutput()
+	if err != nil {
+		c.Notes = append(c.Notes, "race-detector phases skipped: go1.26.8 build -race failed: "+c09OneLine(string(b), 400))
+		return ""
+	}
+	c.Notes = append(c.Notes, fmt.Sprintf("race-detector binary built with go1.26.8 in %.1f s", time.Since(t0).Seconds()))
+	return out
+}
+
+func c09RunChildExe(c *Ctx, exe, phase, label string, merge bool, limit time.Duration, what string) {
 	dir, err := os.MkdirTemp("", "verif-c09-"+phase+"-")
 	if err != nil {
 		panic(err)
 	}
 	defer os.RemoveAll(dir)
 	cmd := exec.Command(exe, "-tier", c.Tier, "-seed", fmt.Sprint(c.Seed), "-out", dir, "C09")
-	cmd.Env = append(os.Environ(), c09PhaseEnv+"="+phase)
+	cmd.Env = append(os.Environ(), c09PhaseEnv+"="+phase, "GORACE=halt_on_error=1")
 	var out bytes.Buffer
 	cmd.Stdout = &out
 	cmd.Stderr = &out
@@ -84,8 +138,10 @@ func c09RunChild(c *Ctx, phase string, limit time.Duration, what string) {
 		_ = cmd.Process.Kill()
 		werr = <-done
 	}
-	id := "c09." + phase
-	replay := fmt.Sprintf("VERIF_C09_PHASE=%s harness -tier %s -seed %d -out DIR C09   (%s)", phase, c.Tier, c.Seed, what)
+	id := "c09." + label
+	phase0 := phase
+	phase = label
+	replay := fmt.Sprintf("VERIF_C09_PHASE=%s harness -tier %s -seed %d -out DIR C09   (%s)", phase0, c.Tier, c.Seed, what)
 	switch {
 	case timedOut:
 		c.Direct(id, fmt.Sprintf("the %s phase did not finish within %s (calls that never return)", phase, limit), replay+" output: "+c09OneLine(out.String(), 1200))
@@ -97,6 +153,10 @@ func c09RunChild(c *Ctx, phase string, limit time.Duration, what string) {
 		return
 	}
 	c.Count("child:" + phase + ":completed")
+	if !merge {
+		c.Notes = append(c.Notes, fmt.Sprintf("phase %s ran in a child process (%.1f s): no report", phase, time.Since(t0).Seconds()))
+		return
+	}
 	// merge
 	scan := func(name string, f func(line string)) {
 		fh, err := os.Open(filepath.Join(dir, name))
@@ -254,9 +314,9 @@ func (g *c09Gen) coldJobs(tag string, shared bool) []c09Job {
 func c09Cold(c *Ctx) {
 	g := &c09Gen{c: c}
 	const workers = 16
-	rounds, nShared, nPrivate := 8, 12, 20
+	rounds, nShared, nPrivate := 32, 12, 20
 	if c.Thorough() {
-		rounds, nShared, nPrivate = 60, 16, 40
+		rounds, nShared, nPrivate = 200, 16, 40
 	}
 	plan := make([][][]c09Job, rounds)
 	for r := 0; r < rounds; r++ {
@@ -306,8 +366,9 @@ func c09Cold(c *Ctx) {
 					c.Direct("c09.cold", fmt.Sprintf("%s on a cold cache under concurrent first use differs from the segment-level reference: got %s want %s", j.fn, j.got, j.want),
 						fmt.Sprintf("%s(%q, %q, %q) round %d goroutine %d of %d", j.fn, j.a, j.b, j.name, r, w, workers))
 				}
-				// the model sees every private call and the shared calls of one goroutine
-				if !j.shared || w == r%workers {
+				// the model sees, for the first 8 rounds and every 8th one after them, every private
+				// call and the shared calls of one goroutine
+				if (r < 8 || r%8 == 0) && (!j.shared || w == r%workers) {
 					g.emitRaw("cold", j.fn, j.a, j.b, j.name, j.got)
 				}
 				// and afterwards, sequentially, the same answer again (whatever was cached is the
